@@ -307,3 +307,47 @@ Proof.
   rewrite D1, C1, B2.
   destruct (dec_vlrs true n (skipn (Z.to_nat dl) (snd (dec_fields evlr_tail r1)))) as [[vl rest]|e]; reflexivity.
 Qed.
+
+(* ------------------------------------------------------------------------------------ *)
+(* C. the header                                                                         *)
+(* ------------------------------------------------------------------------------------ *)
+Lemma dec_header_pre src b rh : dec_header src b = Ok rh ->
+  (227 <= length src)%nat /\ list_eqb (firstn 4 (firstn 227 src)) LASF = true.
+Proof.
+  unfold dec_header. cbv zeta. intros H.
+  match type of H with (if ?c then _ else _) = _ => destruct c eqn:E1; [discriminate|] end.
+  match type of H with (if ?c then _ else _) = _ => destruct c eqn:E2; [discriminate|] end.
+  match type of H with (if ?c then _ else _) = _ => destruct c eqn:E3; [discriminate|] end.
+  split.
+  - rewrite firstn_length in E3. lia.
+  - now apply negb_false_iff in E2.
+Qed.
+
+(* the parse only looks at the prefetched bytes when EVLRs are not asked for *)
+Lemma hdr_stream_idem src : (227 <= length src)%nat -> hdr_stream (hdr_stream src) = hdr_stream src.
+Proof.
+  intros Hl. unfold hdr_stream. cbv zeta.
+  set (off0 := le_dec (firstn 4 (skipn 96 (firstn 227 src)))).
+  destruct (off0 <? 227) eqn:E.
+  - fold off0. rewrite E. reflexivity.
+  - assert (firstn 227 (firstn (Z.to_nat off0) src) = firstn 227 src) as ->.
+    { rewrite firstn_firstn. f_equal. lia. }
+    fold off0. rewrite E. rewrite firstn_firstn. f_equal. lia.
+Qed.
+
+Lemma hdr_stream_first src : (227 <= length src)%nat -> firstn 227 (hdr_stream src) = firstn 227 src.
+Proof.
+  intros Hl. unfold hdr_stream. cbv zeta.
+  destruct (le_dec (firstn 4 (skipn 96 (firstn 227 src))) <? 227) eqn:E; [reflexivity|].
+  rewrite firstn_firstn. f_equal. lia.
+Qed.
+
+Lemma dec_header_prefetched src : (227 <= length src)%nat -> dec_header (hdr_stream src) false = dec_header src false.
+Proof.
+  intros Hl. pose proof (hdr_stream_idem src Hl) as Hi. pose proof (hdr_stream_first src Hl) as Hf.
+  unfold hdr_stream in Hi at 1. cbv zeta in Hi. rewrite Hf in Hi.
+  unfold dec_header. cbv zeta. rewrite Hf, Hi.
+  change (if le_dec (firstn 4 (skipn 96 (firstn 227 src))) <? 227 then src
+          else firstn (Z.to_nat (le_dec (firstn 4 (skipn 96 (firstn 227 src))))) src) with (hdr_stream src).
+  cbv beta iota. reflexivity.
+Qed.
